@@ -1071,6 +1071,60 @@ def inline_lexical_helpers(fnode, depth=2):
                 call = st.value
             elif isinstance(st, ast.Assign) and isinstance(st.value, ast.Call):
                 call = st.value
+            # a tail call `return helper(args)`: the whole body of the helper (whatever its control flow) takes the place of
+            # the return statement - its returns are the returns of this function
+            if isinstance(st, ast.Return) and isinstance(st.value, ast.Call) and d > 0:
+                tc = st.value
+                th = _lookup_def(tc)
+                if th is not None and th is not fnode and not th.decorator_list and not th.args.vararg and not th.args.kwarg and not any(isinstance(a, ast.Starred) for a in tc.args) and not any(k.arg is None for k in tc.keywords) and not any(isinstance(x, (ast.Yield, ast.YieldFrom, ast.Global, ast.Nonlocal)) for x in ast.walk(th)):
+                    tparams = [a.arg for a in th.args.posonlyargs + th.args.args + th.args.kwonlyargs]
+                    tmap = {}
+                    for i, a in enumerate(tc.args):
+                        if i < len(tparams):
+                            tmap[tparams[i]] = a
+                    for k in tc.keywords:
+                        tmap[k.arg] = k.value
+                    pos = [a.arg for a in th.args.posonlyargs + th.args.args]
+                    for prm, dflt in zip(pos[len(pos) - len(th.args.defaults) :], th.args.defaults):
+                        tmap.setdefault(prm, dflt)
+                    for prm, dflt in zip([a.arg for a in th.args.kwonlyargs], th.args.kw_defaults):
+                        if dflt is not None:
+                            tmap.setdefault(prm, dflt)
+                    tbody = [b for b in th.body if not (isinstance(b, ast.Expr) and isinstance(b.value, ast.Constant))]
+                    if not (set(tparams) - set(tmap)) and tbody:
+                        counter[0] += 1
+                        tstored = {x.id for b in tbody for x in ast.walk(b) if isinstance(x, ast.Name) and isinstance(x.ctx, ast.Store)}
+                        tren = {nm: f"{nm}__h{counter[0]}" for nm in tstored}
+                        tpre = [ast.Assign(targets=[ast.Name(id=tren[nm], ctx=ast.Store())], value=_clone(tmap[nm])) for nm in sorted(tstored & set(tparams))]
+
+                        class TS(ast.NodeTransformer):
+                            def visit_Name(self, n):
+                                if n.id in tren:
+                                    return ast.copy_location(ast.Name(id=tren[n.id], ctx=n.ctx), n)
+                                if isinstance(n.ctx, ast.Load) and n.id in tmap:
+                                    return ast.copy_location(_clone(tmap[n.id]), n)
+                                return n
+
+                            def visit_ExceptHandler(self, n):
+                                self.generic_visit(n)
+                                return n
+
+                        tnew = tpre + [TS().visit(_clone(b)) for b in tbody]
+                        if not isinstance(tnew[-1], (ast.Return, ast.Raise)) :
+                            tnew.append(ast.Return(value=None))
+                        for nb in tnew:
+                            for x in ast.walk(nb):
+                                if not hasattr(x, "lineno") or isinstance(x, (ast.stmt, ast.expr)):
+                                    x.lineno = getattr(x, "lineno", None) or getattr(st, "lineno", 1)
+                                    x.col_offset = getattr(x, "col_offset", 0)
+                                    x.end_lineno = getattr(x, "end_lineno", None) or x.lineno
+                                    x.end_col_offset = getattr(x, "end_col_offset", 0)
+                        tmp = ast.Module(body=tnew, type_ignores=[])
+                        _set_parents(tmp)
+                        for nb in tnew:
+                            nb._parent = getattr(st, "_parent", None)
+                        out += expand_block(tnew, d - 1)
+                        continue
             h = _lookup_def(call) if call is not None and d > 0 else None
             sb = straight(h) if h is not None and h is not fnode and not h.decorator_list and not h.args.vararg and not h.args.kwarg else None
             if sb is None or any(isinstance(a, ast.Starred) for a in call.args) or any(k.arg is None for k in call.keywords):
